@@ -10,15 +10,22 @@ def prop(pid, outside, assumptions):
 
 
 def h(name, module, props, tier="quick", symbolic="", desc="", bounds="", stubs=None, cap=None,
-      optional=False):
+      optional=False, mem=3):
     """props: list of property ids this harness serves.  tier: 'quick' harnesses
     run in both tiers, 'thorough' ones only in the thorough tier.  optional:
     rotated in by VERIF_SEED in the quick tier."""
     d = {"name": name, "module": module, "kani_name": "%s::proofs::%s" % (module, name),
          "props": props, "tier": tier, "symbolic": symbolic, "desc": desc, "bounds": bounds,
-         "stubs": stubs or [], "optional": optional}
+         "stubs": stubs or [], "optional": optional, "mem": mem}
     if cap:
         d["cap"] = cap
+    HARNESSES.append(d)
+
+
+def side(name, engine, props, tier="quick", symbolic="", desc="", bounds="", **extra):
+    d = {"name": name, "engine": engine, "props": props, "tier": tier, "symbolic": symbolic, "desc": desc, "bounds": bounds,
+         "stubs": [], "optional": False, "kani_name": "%s:%s" % (engine, name)}
+    d.update(extra)
     HARNESSES.append(d)
 
 
@@ -63,6 +70,12 @@ for m, op in FOLD:
       symbolic="x:i32, y:i32 (all 2^64 pairs)",
       desc="Inst::%s.math_op().operate(x,y) == RV32IM %s(x,y), no panic" % (m.capitalize(), op),
       bounds="none (loop-free)")
+for m, op in FOLD:
+    for profile in ("dev", "release"):
+        side("e2_fold_%s_%s" % (m, profile), "e2", ["C08", "C01", "C06"], symbolic="x, y: (_ BitVec 32), all pairs",
+             desc="MIR of MathOp::operate (%s profile) for %s: no panic path is satisfiable and every return value equals RV32IM %s(x,y); z3 and cvc5" % (
+                 profile, m, op),
+             bounds="none (loop-free); 24 validation vectors pushed through the native function and the encoding", mnemonic=m, profile=profile)
 for m in ("add", "addi", "sub"):
     h("scalar_" + m, "ob_fold", ["C08", "C01", "C06"], symbolic="x:i32, y:i32",
       desc="Inst::%s.scalar_op().operate(x,y) == RV32IM semantics" % m.capitalize(), bounds="none")
@@ -194,6 +207,12 @@ import json as _json
 import os as _os
 _cases = _json.load(open(_os.path.join(_os.path.dirname(_os.path.abspath(__file__)), "..", "kani", "catalogue", "text_cases.json")))
 TEXT_CASES = _cases
+for c in _cases:
+    side("e3_" + c["name"], "e3", ["C08"] + (["C17"] if c["name"].startswith(("text_u_lui", "text_p_li")) else []),
+         symbolic="31 register contents, pc, loaded words, label address: (_ BitVec 32)",
+         desc="text '%s' (parsed natively by the real Lexer + ParserNode::try_from) has the effect of %s for all register contents" % (
+             c["text"], "; ".join(e["k"] for e in c["expected"])),
+         bounds="concrete text (catalogue); <= 2 instructions", case=c)
 for c in []:  # Kani cannot execute ParserNode::try_from on text inside its caps (measured, DESIGN.md section 1): decided by engine E3
     h(c["name"], "gen_text", ["C08"] + (["C13x"] if c["pseudo"] else []), tier=c["tier"],
       symbolic="32 register contents, loaded value, pc",
@@ -202,7 +221,7 @@ for c in []:  # Kani cannot execute ParserNode::try_from on text inside its caps
 
 # ---------------------------------------------------------------------------
 # C01.b/e: generated facts, seeding, meet, kill
-for k in ("arith", "iarith", "load", "la", "jal", "jalr", "csr", "csri", "store", "branch"):
+for k in ("arith", "arith_zero", "iarith", "load", "la", "jal", "jalr", "csr", "csri", "store", "branch"):
     h("gen_reg_" + k, "ob_gen", ["C01", "C06"], symbolic="node fields, entry/pre register files, addressed memory word",
       desc="gen_reg_value of a %s node is true (gamma) in the post-state of the instruction" % k, bounds="unwind 34", stubs=UUID)
 h("gen_mem_store_sp", "ob_gen", ["C01"], symbolic="store width, registers, imm, register file, old memory word",
@@ -212,17 +231,21 @@ h("gen_mem_csrrwi", "ob_gen", ["C01"], symbolic="node fields", desc="gen_memory_
 for k in ("arith", "load", "jal"):
     h("gen_mem_none_" + k, "ob_gen", ["C01"], tier="thorough", symbolic="node fields",
       desc="no memory fact from a %s node" % k, bounds="unwind 34", stubs=UUID)
-h("gen_seeding", "ob_gen", ["C01"], symbolic="which seed set, probe register",
-  desc="callee_saved/sp_ra/all_writable .into_available_values() == r -> Orig(r,0) exactly on the set", bounds="unwind 34")
-h("gen_meet", "ob_gen", ["C01", "C12x"], symbolic="two maps: presence bits and values (variant, payload, register) on 3 keys",
-  desc="AvailableValueMap &= keeps exactly the keys bound to equal values in both", bounds="3 keys, unwind 8")
-h("gen_kill_step", "ob_gen", ["C01"], symbolic="map on 3 keys, killed register", desc="map -= set removes exactly the killed keys", bounds="3 keys")
+# (gen_seeding - RegisterSet::into_available_values - needs unwind 34 for the set iterator, which makes every loop over
+# the Vec-backed map unroll 34 times: symbolic execution does not finish in 300 s.  Seeding is RegisterSetIter (C14,
+# regs_set_iter) composed with a one-line closure; not registered.)
+h("gen_meet", "ob_gen", ["C01", "C12x"], symbolic="two maps on 2 keys: presence bit of the second key, values (variant, payload, register)",
+  desc="AvailableValueMap &= keeps exactly the keys bound to equal values in both", bounds="2 keys, unwind 8", mem=12, cap=900)
+h("gen_kill_step", "ob_gen", ["C01"], symbolic="map on 2 keys, killed register", desc="map -= set removes exactly the killed keys", bounds="2 keys", mem=12, cap=900)
 
 # C01.c: rewrite rules (catalogue of roles x variants)
 _rules = _json.load(open(_os.path.join(_os.path.dirname(_os.path.abspath(__file__)), "..", "kani", "catalogue", "rules_cases.json")))
+OPC = ["riscv_analysis::cfg::MathOp::operate -> RV32IM reference for the 10 operators without multiplier/divider (contract stub; "
+       "operate itself is decided for all operands by fold_* and E2)"]
 for c in _rules:
     h(c["name"], "gen_rules", ["C01", "C06"], tier=c["tier"], symbolic=c["symbolic"], desc=c["desc"],
-      bounds="concrete register roles (catalogue), <= 3 facts per map, unwind 34", stubs=UUID)
+      bounds="concrete register roles (catalogue), <= 3 facts per map, unwind 9",
+      stubs=UUID, mem=12, cap=900)
 
 # ---------------------------------------------------------------------------
 # C06: abs() in message formatting; C18.a ordering; C19 dump values
